@@ -64,7 +64,8 @@ def run(ctx):
     ctx.build()
     q = ctx.quick
     tier = "quick" if q else "thorough"
-    jenv = {"JAVA_TOOL_OPTIONS": "-Xmx4g"}
+    # small models; deep recursive definitions over ~100 measurements need a larger thread stack
+    jenv = {"JAVA_TOOL_OPTIONS": "-Xmx4g -Xss64m"}
     # (M) lemmas on every collection of the exhaustive families
     ctx.tlc("Legacy.tla", "Legacy_mc_%s.cfg" % tier, timeout=3000, env=jenv)
     # (G) the same families as replay cases
@@ -78,7 +79,7 @@ def run(ctx):
     s = ctx.tlc("Legacy_gen.tla", "Legacy_gen_sim.cfg", workers=1, simulate=nsim, depth=130, timeout=3000,
                 label="simulate+gen", env=jenv)
     sims = s.printed_json("case")
-    if len(sims) < nsim * 0.9:
+    if len(sims) < nsim * 0.9 or not any(c["fam"] == "wide" for c in sims):
         raise vlib.Infra("simulation produced %d collections for %d behaviours" % (len(sims), nsim))
     cases += sims
     for c in cases:
